@@ -40,16 +40,16 @@ Ltac all_q Hq :=
   let go l := (let H := fresh "Q" in pose proof (quiescent_none _ _ Hq l ltac:(simpl; tauto)) as H) in
   go (IPreface true); go IJoin; go ICallerClose;
   go (IRead Cl); go (IReadEnd Cl); go (ITake Cl false); go (ISelErr Cl); go (ISelClosing Cl); go (ISelDone Cl);
-  go (ILock Cl); go (ISend Cl); go (IAbort Cl); go (IUnlock Cl false); go (IWrite Cl false); go (IWriteUnblock Cl false); go (IErrHandoff Cl); go (IHandshake Cl); go (IStop Cl);
+  go (ILock Cl); go (ISend Cl); go (IAbort Cl); go (IUnlock Cl false); go (IDWrite Cl false); go (IWrite Cl false); go (IWTake Cl); go (IWSend Cl false); go (IErrHandoff Cl); go (IHandshake Cl); go (IStop Cl);
   go (IRead Sv); go (IReadEnd Sv); go (ITake Sv false); go (ISelErr Sv); go (ISelClosing Sv); go (ISelDone Sv);
-  go (ILock Sv); go (ISend Sv); go (IAbort Sv); go (IUnlock Sv false); go (IWrite Sv false); go (IWriteUnblock Sv false); go (IErrHandoff Sv); go (IHandshake Sv); go (IStop Sv).
+  go (ILock Sv); go (ISend Sv); go (IAbort Sv); go (IUnlock Sv false); go (IDWrite Sv false); go (IWrite Sv false); go (IWTake Sv); go (IWSend Sv false); go (IErrHandoff Sv); go (IHandshake Sv); go (IStop Sv).
 
 Ltac red_q :=
   unfold blocks in *;
   cbn [step getd setd with_rd with_rd_rf exit_failed set_trig set_remote remote local_closed is_emit_on side_eqb
-       dc ds main cli srv wbroken_c wbroken_s sc_closed cc_closed closing done trig
+       dc ds main cli srv wbroken_c wbroken_s sc_closed cc_closed closing done trig dleak_c dleak_s dleak set_dleak
        rd wr wfailed werr chan queued rf inflight other cfg_fixed cfg_orig fix_close fix_done fix_abort
-       werr_buffered wbroken blocks is_stalled not_errsend
+       werr_buffered credit_unlocks wbroken blocks is_stalled not_errsend
        andb orb negb conn_open rf_gone in_loop writer_alive reader_alive] in *.
 
 Ltac qd :=
@@ -66,6 +66,8 @@ Ltac qd :=
          | H : context [is_stalled ?v] |- _ => is_var v; destruct v; red_q
          | H : context [not_errsend ?v] |- _ => is_var v; destruct v; red_q
          | H : context [getd _ ?v] |- _ => is_var v; destruct v; red_q
+         | H : context [remote _ ?v] |- _ => is_var v; destruct v; red_q
+         | H : context [dleak _ ?v] |- _ => is_var v; destruct v; red_q
          | H : context [writer_alive ?v] |- _ => is_var v; destruct v; red_q
          | H : context [reader_alive ?v] |- _ => is_var v; destruct v; red_q
          | H : context [rf_gone ?v] |- _ => is_var v; destruct v; red_q
